@@ -468,3 +468,95 @@ func runC20Reentrant(c *Ctx) {
 	c.Sites += n
 	c.Check(len(bad) == 0, "C20-REENTRANT", "valid.dumpStruct", "no-field-state", hd.Pos(), fmt.Sprintf("%d stores in the emitters, none to a field of the shared object", n), uniqJoin(bad, 3))
 }
+
+// runC20Facade: rules C20-GET and C20-FACADE. What the emitters wrote is what the caller gets: Get returns
+// the builder's text itself, and the convenience wrapper returns Get's result of a dumper that was
+// handed reflect.ValueOf of the caller's value — no post-processing, no shortcut results.
+func runC20Facade(c *Ctx) {
+	p := c.P
+	c.Rule("C20-GET", "dumpStruct.Get returns the text of the dumper's own builder unchanged on every path", 1)
+	c.Rule("C20-FACADE", "GetDumpStructStr returns, on every path, the Get() result of a dumper whose HandleDumpStruct received reflect.ValueOf of the caller's value", 1)
+	get := p.Method("valid", "dumpStruct", "Get")
+	hd := p.Method("valid", "dumpStruct", "HandleDumpStruct")
+	if get == nil || hd == nil {
+		c.Unk("C20-GET", "valid.dumpStruct", "anchor", token.NoPos, "Get / HandleDumpStruct not found")
+		return
+	}
+	c.Funcs[fnName(get)] = true
+	{
+		var bad []string
+		n := 0
+		for _, b := range get.Blocks {
+			ret, ok := b.Instrs[len(b.Instrs)-1].(*ssa.Return)
+			if !ok || len(ret.Results) != 1 {
+				continue
+			}
+			n++
+			v := ret.Results[0]
+			// deferred release: the result may be spilled into the named result slot
+			if ld, ok := v.(*ssa.UnOp); ok && ld.Op == token.MUL {
+				if al, ok := ld.X.(*ssa.Alloc); ok {
+					var stored []ssa.Value
+					for _, r := range refs(al) {
+						if st, ok := r.(*ssa.Store); ok && st.Addr == ssa.Value(al) {
+							stored = append(stored, st.Val)
+						}
+					}
+					if len(stored) == 1 {
+						v = stored[0]
+					}
+				}
+			}
+			call, ok := v.(*ssa.Call)
+			if !ok || calleeName(&call.Call) != "(*strings.Builder).String" {
+				bad = append(bad, p.Pos(ret.Pos())+": the value returned is not the builder's String() itself ("+describeVal(v)+"): the emitted document is altered after the fact, e.g. characters inside string values are rewritten")
+				continue
+			}
+			ld, ok := call.Call.Args[0].(*ssa.UnOp)
+			fa, ok2 := ssa.Value(nil), false
+			if ok {
+				if f, isFA := ld.X.(*ssa.FieldAddr); isFA && f.X == ssa.Value(get.Params[0]) {
+					fa, ok2 = f, true
+				}
+			}
+			_ = fa
+			if !ok2 {
+				bad = append(bad, p.Pos(ret.Pos())+": String() is not taken from the dumper's own builder")
+			}
+		}
+		c.Sites++
+		c.Check(len(bad) == 0 && n > 0, "C20-GET", fnName(get), "verbatim", get.Pos(), fmt.Sprintf("%d return(s) of the builder's text", n), uniqJoin(bad, 2))
+	}
+	w := p.Func("valid", "GetDumpStructStr")
+	if w == nil || len(w.Params) != 1 {
+		c.Unk("C20-FACADE", "valid.GetDumpStructStr", "anchor", token.NoPos, "wrapper not found")
+		return
+	}
+	c.Funcs[fnName(w)] = true
+	var bad []string
+	n := 0
+	src := derivedFrom(w.Params[0])
+	for _, b := range w.Blocks {
+		ret, ok := b.Instrs[len(b.Instrs)-1].(*ssa.Return)
+		if !ok || len(ret.Results) != 1 {
+			continue
+		}
+		n++
+		call, ok := ret.Results[0].(*ssa.Call)
+		if !ok || staticCallee(&call.Call) != get {
+			bad = append(bad, p.Pos(ret.Pos())+": a path returns "+describeVal(ret.Results[0])+" instead of the dumper's output: e.g. a nil pointer is rendered as something other than null")
+			continue
+		}
+		hc, ok := call.Call.Args[0].(*ssa.Call)
+		if !ok || staticCallee(&hc.Call) != hd || len(hc.Call.Args) < 2 {
+			bad = append(bad, p.Pos(ret.Pos())+": Get is not applied to the result of HandleDumpStruct")
+			continue
+		}
+		vo, ok := hc.Call.Args[1].(*ssa.Call)
+		if !ok || calleeName(&vo.Call) != "reflect.ValueOf" || !src[vo.Call.Args[0]] {
+			bad = append(bad, p.Pos(ret.Pos())+": HandleDumpStruct does not receive reflect.ValueOf of the caller's value")
+		}
+	}
+	c.Sites++
+	c.Check(len(bad) == 0 && n > 0, "C20-FACADE", fnName(w), "pass-through", w.Pos(), fmt.Sprintf("%d return(s), each the dumper's own output", n), uniqJoin(bad, 2))
+}
